@@ -6,22 +6,31 @@ every decision vector (MC_PyMini); each is rendered to Python, run uninstrumente
 sys.monitoring (interpreter ground truth) and instrumented through Pynguin's real import hook;
 PyMiniTrace.tla is evaluated by TLC: reported lines = executed lines, nothing foreign.  The
 semantics' own prediction is cross-checked against the interpreter (drift only).
+
+(2) idiom corpus (comprehensions, generators, coroutines, try/except/finally, except*, with, match,
+closures, classes, descriptors, ...): every function x 8 inputs x metric combinations containing
+LINE, lines reported per execution = LINE events of every code object of the module (IdiomTrace.tla:
+ReportedLinesExact, NoForeignLines)
 """
 
 from harness.core import Ctx
-from harness.props import _pymini
+from harness.props import _idioms, _pymini
 
 
 def run(ctx: Ctx) -> None:
     ctx.rule = ("case = (program, decision vector): all PyMini programs with one compound statement (if/while/for/"
                 "try with bodies of <= 2 simple statements incl. break/continue/return/raise, else/except/finally "
                 "clauses) x decision vectors of length 3 (quick: 3 vectors per program; thorough: all, plus 12000 "
-                "nested depth-2 programs x vectors of length 4); non-trivial = distinct cases executing > 2 lines")
+                "nested depth-2 programs x vectors of length 4); non-trivial = distinct cases executing > 2 lines; plus (idiom function, metric combination) x 8 inputs")
     ctx.assumptions = ["ground truth = sys.monitoring LINE events of f's code object on the uninstrumented module",
                        "coverable lines = statement lines of the rendered function body (the `def` line belongs to "
                        "the import trace)"]
+    n_i = _idioms.run(ctx, "C02")  # first: the children are forked from a still small process
     _pymini.run_prop(ctx, "C02")
+    ctx.evaluations += n_i
 
 
 def replay(ctx: Ctx, rec: dict) -> int:
+    if "idiom" in rec["behaviour"]:
+        return _idioms.replay(ctx, rec, "C02")
     return _pymini.replay_prop(ctx, rec, "C02")
